@@ -1,6 +1,6 @@
 /-
-  C05 (aliasing), pointer level: mpz_powm, mpz_powm_ui (and mpz_addmul / mpz_submul) on the memory model of
-  Mpir/Model/AliasMem.lean.  Core Lean only (linked into the driver).
+  C05 (aliasing), pointer level: mpz_powm, mpz_powm_ui, mpz_addmul / mpz_submul, mpz_sqrt, mpz_lcm, mpz_invert on the
+  memory model of Mpir/Model/AliasMem.lean.  Core Lean only (linked into the driver).
 
   mpz_powm fetches `mp = PTR (m)` (powm.c:77), `ep = PTR (e)` (:115) and `bp = PTR (b)` (:121 / :191) early and
   uses them to the end; all the mpn work happens in TMP space and is taken here at its VALUE (the value-level
@@ -326,6 +326,6 @@ def mpz_invert (inverse x n : Nat) (s : St) : R (Bool × St) := do
     else invertMain inverse x n xsize nsize s                 -- :46-71
 
 /-- what the examples look at -/
-def look (r : R St) (k : Nat) : R (List (Int × Nat × Nat)) := r.map (·.view k)
+def lookP (r : R St) (k : Nat) : R (List (Int × Nat × Nat)) := r.map (·.view k)
 
 end Mpir.AliasMem
